@@ -8,6 +8,10 @@ import (
 
 // Host returns the host of net.Addr.
 func Host(addr net.Addr) string {
+	if hp, ok := addr.(hostPorter); ok {
+		host, _ := hp.hostPort()
+		return host
+	}
 	return HostStr(addr.String())
 }
 
@@ -19,6 +23,10 @@ func HostStr(addr string) string {
 
 // Port returns the port of net.Addr.
 func Port(addr net.Addr) uint16 {
+	if hp, ok := addr.(hostPorter); ok {
+		_, port := hp.hostPort()
+		return port
+	}
 	_, port, _ := splitHostPort(addr.String())
 	return port
 }
@@ -31,6 +39,9 @@ func PortStr(addr string) uint16 {
 
 // HostPort returns the split host and port of a net.Addr.
 func HostPort(addr net.Addr) (host string, port uint16) {
+	if hp, ok := addr.(hostPorter); ok {
+		return hp.hostPort()
+	}
 	host, port, _ = splitHostPort(addr.String())
 	return
 }
@@ -49,6 +60,30 @@ func Parse(addr string, network string) (net.Addr, error) {
 func NewAddr(addr, network string) net.Addr {
 	return &address{addr: addr, network: network}
 }
+
+// NewHostPortAddr creates a net.Addr from a host and a port that are already
+// known separately. Its String is "host:port" exactly like the address NewAddr
+// would carry, but Host, Port and HostPort report the given parts instead of
+// splitting the string again. That matters for hosts net.SplitHostPort cannot
+// split back, e.g. the unbracketed IPv6 literal or TCPShield payload a client
+// sends as handshake server address ("::1" + ":25565" is not "::1:25565").
+func NewHostPortAddr(host string, port uint16, network string) net.Addr {
+	return &hostPortAddr{
+		address: address{addr: host + ":" + strconv.Itoa(int(port)), network: network},
+		host:    host,
+		port:    port,
+	}
+}
+
+type hostPorter interface{ hostPort() (string, uint16) }
+
+type hostPortAddr struct {
+	address
+	host string
+	port uint16
+}
+
+func (a *hostPortAddr) hostPort() (string, uint16) { return a.host, a.port }
 
 func splitHostPort(addr string) (host string, port uint16, err error) {
 	portInt := 0
